@@ -6,7 +6,9 @@
 #include <stdlib.h>
 #include <string.h>
 
+#ifndef MAXARGS
 #define MAXARGS 64
+#endif
 
 /* Coverage measurement builds (tools/cov.py): a child that leaves through _exit() must write its counters itself. */
 #ifdef VERIF_GCOV
